@@ -483,6 +483,7 @@ func (l *leader) setCommitIndex(index uint64) {
 		println(l, "log.Commit", index)
 	}
 	l.storage.commitLog(index)
+	verifPoint("leader.flushed", l.Raft, index)
 	if l.commitIndex < l.startIndex && index >= l.startIndex {
 		l.logger.Info("ready for commit")
 		if tracer.commitReady != nil {
